@@ -15,7 +15,8 @@ TECHNIQUE = ('explicit-state breadth-first search (canonical-state dedup) over h
 
 MAX_DURATION = 15
 SUBSCRIBERS = {
-    'A': {'ip': '10.0.1.1', 'port': 7001, 'end_to': True, 'filter': ['EpisodicMetricReport', 'EpisodicAlertReport']},
+    # A's EndTo lives on another port than its NotifyTo (legal: SubscriptionEnd must be posted to that connection)
+    'A': {'ip': '10.0.1.1', 'port': 7001, 'end_to': True, 'end_port': 7101, 'filter': ['EpisodicMetricReport', 'EpisodicAlertReport']},
     'B': {'ip': '10.0.1.2', 'port': 7002, 'end_to': False, 'filter': ['EpisodicMetricReport']},
 }
 MANAGERS = ('path-sync', 'ref-sync', 'path-async', 'ref-async')
@@ -60,6 +61,10 @@ class Sim:
             self.rec[name] = Recorder()
             srv.dispatcher.register_instance('notify', self.rec[name])
             srv.dispatcher.register_instance('end', self.rec[name])
+            if cfg.get('end_port'):
+                srv2 = world.FakeHttpServer(self.w.wire, cfg['ip'], cfg['end_port'])
+                srv2.dispatcher.register_instance('end', self.rec[name])
+                srv2.dispatcher.register_instance('notify', self.rec[name])
         self.hosted_address = None
         for svc in self.p.hosted_services.dpws_hosted_services.values():
             if svc.subscriptions_manager is self.mgr:
@@ -127,7 +132,9 @@ class Sim:
         hosted = types.SimpleNamespace(EndpointReference=[types.SimpleNamespace(Address=self.hosted_address)])
         base = f'http://{cfg["ip"]}:{cfg["port"]}'
         return ConsumerSubscription(self.p.msg_factory, self.p.mdib.data_model, self._soap_client, hosted, ft,
-                                    f'{base}/notify/{name}', f'{base}/end/{name}' if cfg['end_to'] else None, 'verif')
+                                    f'{base}/notify/{name}',
+                                    (f'http://{cfg["ip"]}:{cfg.get("end_port") or cfg["port"]}/end/{name}') if cfg['end_to'] else None,
+                                    'verif')
 
     # ---- model helpers
     def _live(self, name):
@@ -145,9 +152,9 @@ class Sim:
         out = []
         for msg in self.w.wire.log[n0:]:
             for name, cfg in SUBSCRIBERS.items():
-                if msg.netloc == f'{cfg["ip"]}:{cfg["port"]}':
+                if msg.netloc in (f'{cfg["ip"]}:{cfg["port"]}', f'{cfg["ip"]}:{cfg.get("end_port")}'):
                     kind = 'end' if b'SubscriptionEnd' in msg.data else 'notification'
-                    out.append((name, kind, msg.path))
+                    out.append((name, kind, msg.path if msg.netloc.endswith(f':{cfg["port"]}') else f'{msg.netloc}{msg.path}'))
         return out
 
     # ---- events --------------------------------------------------------------------------------
@@ -351,7 +358,10 @@ class Sim:
             if got != expected:
                 problems.append(f'SubscriptionEnd sent to {got}, live subscriptions are {expected}')
             for n, path in ends:
-                want_path = f'/end/{n}' if SUBSCRIBERS[n]['end_to'] else f'/notify/{n}'
+                cfgn = SUBSCRIBERS[n]
+                want_path = f'/end/{n}' if cfgn['end_to'] else f'/notify/{n}'
+                if cfgn['end_to'] and cfgn.get('end_port'):
+                    want_path = f'{cfgn["ip"]}:{cfgn["end_port"]}/end/{n}'      # posted on the EndTo connection
                 if path != want_path:
                     problems.append(f'SubscriptionEnd for {n} addressed to {path}, expected {want_path}')
             if any(k == 'notification' for _, k, _ in self._deliveries(n0)):
